@@ -58,3 +58,20 @@ def st_unhashable_key(v: int) -> int:
     except TypeError:
         return 13
     return 1
+
+
+def st_unhashable_element(v: int) -> int:
+    """
+    pre: 0 <= v <= 1
+    post: _ != 13
+    """
+    # plugin fix 6: set() / frozenset() of unhashable elements must raise TypeError under the tracer; must be REFUTED
+    items = [(1, [2, v])]
+    try:
+        if v == 0:
+            set(x for x in items)
+        else:
+            frozenset(items)
+    except TypeError:
+        return 13
+    return 0
